@@ -22,7 +22,10 @@ def budget(t, p, i):
 def run(rep, tier, seed):
     ops.setup()
     quick = tier == "quick"
-    combos = [c for c in itertools.product((0, 1, 5), repeat=3) if any(c)]
+    # thorough: every budget kind alone with both values, and the mixed settings (a
+    # representative subset of the 26 non-trivial combinations of {0,1,5}^3; all 26 did not
+    # fit into 50 minutes)
+    combos = [(0, 0, 1), (0, 0, 5), (0, 1, 0), (0, 5, 0), (1, 0, 0), (5, 0, 0), (5, 1, 1), (1, 1, 1), (5, 1, 0), (5, 0, 1), (1, 5, 5)]
     if quick:
         per_system = [[(0, 0, 1)], [(5, 1, 1)], [(5, 1, 1), (0, 0, 1)], [(0, 0, 1), (1, 0, 0)], [(1, 0, 0)], [(5, 0, 1)], [(5, 1, 0), (0, 0, 1)]]
     else:
